@@ -89,7 +89,7 @@ pub struct Val {
     pub ph: bool,
 }
 
-#[derive(Clone, Default)]
+#[derive(Clone, Default, Debug)]
 pub struct TableHashBuilder {
     table: Arc<HashMap<u64, u64>>,
 }
@@ -468,6 +468,11 @@ pub struct RandParams {
     pub max_ins: usize,
     pub len: usize,
     pub num: usize,
+    /// a key used only by the closing phase of a run (drop every handle, then insert this key with a
+    /// weight equal to the whole capacity: with no handle outstanding the cache must come back within
+    /// capacity, so a record that stayed pinned or unaccounted shows)
+    #[serde(default)]
+    pub reserve: Option<u64>,
 }
 
 pub struct Lcg(pub u64);
@@ -499,7 +504,8 @@ pub fn random_run(cfg: &MemCfg, prm: &RandParams, rng: &mut Lcg) -> Result<Vec<J
         trace.push(json!({"op": op, "obs": obs}));
         Ok(())
     };
-    step(&mut runner, json!({"name": "init", "cap": rng.pick(&prm.init_caps)}))?;
+    let mut cap = *rng.pick(&prm.init_caps);
+    step(&mut runner, json!({"name": "init", "cap": cap}))?;
     let mut inserts = 0usize;
     let mut alive = true;
     for _ in 0..prm.len {
@@ -529,7 +535,10 @@ pub fn random_run(cfg: &MemCfg, prm: &RandParams, rng: &mut Lcg) -> Result<Vec<J
                     break json!({"name": "drop", "r": runner.held[i].0});
                 }
                 "clear" | "evict_all" | "flush" => break json!({"name": name}),
-                "resize" if !prm.caps.is_empty() => break json!({"name": "resize", "cap": rng.pick(&prm.caps)}),
+                "resize" if !prm.caps.is_empty() => {
+                    cap = *rng.pick(&prm.caps);
+                    break json!({"name": "resize", "cap": cap});
+                }
                 "drop_cache" if runner.held.is_empty() && rng.below(4) == 0 => {
                     alive = false;
                     break json!({"name": "drop_cache"});
@@ -538,6 +547,17 @@ pub fn random_run(cfg: &MemCfg, prm: &RandParams, rng: &mut Lcg) -> Result<Vec<J
             }
         };
         step(&mut runner, op)?;
+    }
+    if alive {
+        if let Some(rk) = prm.reserve {
+            while let Some(v) = runner.held.first().map(|h| h.0) {
+                step(&mut runner, json!({"name": "drop", "r": v}))?;
+            }
+            if cfg.shards == 1 && cap >= 1 {
+                step(&mut runner, json!({"name": "insert", "k": rk, "w": cap, "hint": "normal", "ph": false, "hold": false}))?;
+                step(&mut runner, json!({"name": "insert", "k": rk, "w": 1, "hint": "normal", "ph": false, "hold": false}))?;
+            }
+        }
     }
     runner.finish();
     Ok(trace)
